@@ -10,6 +10,7 @@ import (
 	"os"
 	"path/filepath"
 	"strings"
+	"sync"
 	"time"
 
 	"github.com/taskctl/taskctl/pkg/runner"
@@ -18,6 +19,17 @@ import (
 
 	"verif/internal/h"
 )
+
+// The harness runs several independent runners in one process; taskctl itself
+// never does. Finish touches package-global state of pkg/output (closed/closeCh),
+// so the harness serialises these calls instead of manufacturing that race.
+var finishMu sync.Mutex
+
+func lockedFinish(f func()) {
+	finishMu.Lock()
+	defer finishMu.Unlock()
+	f()
+}
 
 func newQuietRunner() *runner.TaskRunner {
 	r, err := runner.NewTaskRunner()
@@ -128,7 +140,7 @@ func runFree(a args, spec *graphSpec, r *h.Rand, idx int) {
 		out.Inconclusive("C03", fmt.Sprintf("free-running pipeline #%d did not return within 60 s", idx))
 		return
 	}
-	sch.Finish()
+	lockedFinish(sch.Finish)
 	out.Count("executions", 1)
 	toks := strings.Fields(h.ReadFile(trace))
 	out.Count("events", int64(len(toks)))
